@@ -406,6 +406,16 @@ func (s *Seq) Step(profile string) {
 		}
 		s.Liquidate(user(), existing.Owner, existing.Ty, "")
 	default: // ---- next block with oracle activity
+		if s.FeedPct > 0 && r.Chance(s.FeedPct) { // ---- or a price-feed outage episode (feed.go)
+			t := ty
+			if existing != nil && r.Chance(80) {
+				t = existing.Ty
+			}
+			if s.CP(t) != nil {
+				s.FeedEpisode(s.RandomFeedPlan(t))
+				return
+			}
+		}
 		tag := s.oracleActivity(o, existing, profile)
 		gap := c.Pick(r, []int64{0, 1, 1, 5, 60, 3600, 86400, 86400 * 30})
 		if s.GovPct > 0 && r.Chance(s.GovPct) {
